@@ -318,3 +318,33 @@ Fixpoint ntrace v ktab dtab nk (ops : list (list (action nat nat))) (s : sys nat
   end.
 Definition history v ktab dtab nk ops := ntrace v ktab dtab nk ops (init empty_dir).
 End NatCache.
+
+(* ------------------------------------------------------------------------------------------ *)
+(* Which key function is used: ampform.sympy._cache._get_python_hash_seed / get_readable_hash  *)
+(* select on the value of the environment variable PYTHONHASHSEED AT CALL TIME:                *)
+(*   unset, "", "random", any string that is not all (ASCII) digits  -> sha256(str(expr))       *)
+(*   a non-empty string of digits n                                  -> hash(expr) under seed n *)
+(* (tied to the real helper over a list of environment values by the correspondence run;       *)
+(*  non-ASCII "digits" such as superscripts are outside this model)                            *)
+From Coq Require Import Ascii String NArith.
+Module HashMode.
+Open Scope N_scope.
+Inductive envval := EnvUnset | EnvStr (s : string).
+Inductive keymode := Sha256 | PyHash (seed : N).
+
+Definition is_digit (c : ascii) : bool := let n := N_of_ascii c in (48 <=? n) && (n <=? 57).
+Fixpoint all_digits (s : string) : bool :=
+  match s with EmptyString => true | String c t => is_digit c && all_digits t end.
+Definition isdigit (s : string) : bool :=            (* str.isdigit on ASCII strings *)
+  match s with EmptyString => false | _ => all_digits s end.
+Fixpoint parse_acc (acc : N) (s : string) : N :=     (* int(s) for a string of digits *)
+  match s with EmptyString => acc | String c t => parse_acc (acc * 10 + (N_of_ascii c - 48)) t end.
+
+Definition hash_mode (v : envval) : keymode :=
+  match v with
+  | EnvUnset => Sha256
+  | EnvStr s => if isdigit s then PyHash (parse_acc 0 s) else Sha256
+  end.
+
+Definition mode_code (m : keymode) : N := match m with Sha256 => 0 | PyHash n => N.succ n end.
+End HashMode.
